@@ -81,8 +81,8 @@ def check(chk):
 # `any_of` = functions one of which an enforcing implementation has to reach from the named validator function
 REQUIRED_RULES = [
     ("header-members-unsigned", "sbe_schema_validator::validate_level_header_element", ["is_unsigned_primitive_type", "is_integral_type"],
-     "blockLength / numInGroup / length / header fields must be (unsigned) integers: the library applies std::make_signed and "
-     "integer arithmetic to them (a float numInGroup is accepted today and the header does not compile)"),
+     "blockLength / numInGroup / length / header fields must be integers: the library applies std::make_signed and "
+     "integer arithmetic to them (a float numInGroup makes the generated header ill-formed)"),
     ("enum-values-unique", "sbe_schema_validator::validate_valid_values", ["add_or_throw", "count", "find", "insert", "emplace", "try_emplace", "contains"],
      "validValue *values* must be unique: tag_invoke emits one `case` per validValue (duplicate case value does not compile)"),
     ("offset-plus-size-bounded", "sbe_schema_validator::validate_field_offset", ["max", "add_overflow", "checked_add"],
